@@ -50,7 +50,8 @@ def uw(cfg, nmain=6):
     maxr = maxrev * cfg.get("REF_MAXRB", 2)
     big = max(nj, nfs) * B + 1
     l = ["main.%d:%d" % (i, big) for i in range(nmain)]
-    l += ["ref_walk.0:%d" % (walk + 1), "ref_parse_tags.0:%d" % (maxt + 2), "ref_parse_tags.1:%d" % (B // 2),
+    l += ["ref_walk.0:%d" % (max(walk, maxt + 1) + 1), "ref_walk.1:%d" % (max(walk, maxt + 1) + 1),
+          "ref_blk_csum.0:%d" % (nj + 1), "stub_word_of.0:%d" % (nj + 1), "ref_parse_tags.0:%d" % (maxt + 2), "ref_parse_tags.1:%d" % (B // 2),
           "ref_load.0:%d" % (B + 1), "ref_load.1:%d" % (nj + 1),
           "ref_collect_revokes.0:%d" % (maxr + 1), "ref_collect_revokes.1:%d" % (maxr + 1),
           "ref_collect_revokes.2:%d" % (maxr + 1), "ref_collect_revokes.3:%d" % (B // 4), "ref_collect_revokes.4:%d" % (walk + 1),
@@ -100,6 +101,11 @@ HARNESSES = [
          funcs=["do_one_pass", "count_tags", "jread"],
          configs=cfgs([dict(Q, FEAT_64BIT=0, REF_MAXWALK=4),
                        dict(Q, FEAT_64BIT=1, REF_MAXWALK=4),
+                       # checksummed journals: v1 (COMPAT_CHECKSUM, PASS_SCAN walks data blocks in calc_chksums), v2, v3
+                       dict(Q, FEAT_64BIT=0, FEAT_CSUM=1, REF_MAXWALK=4),
+                       dict(Q, FEAT_64BIT=0, FEAT_CSUM=1, FEAT_ASYNC=1, REF_MAXWALK=4),
+                       dict(Q, FEAT_64BIT=0, FEAT_CSUM=2, REF_MAXWALK=4),
+                       dict(Q, FEAT_64BIT=1, FEAT_CSUM=3, REF_MAXWALK=4),
                        dict(Q, FEAT_64BIT=0, REF_MAXWALK=6, **T),
                        dict(FEAT_64BIT=0, REF_MAXWALK=4, **T),          # s_first symbolic
                        dict(Q, FEAT_64BIT=0, NJ=8, REF_MAXWALK=5, **T)]),
